@@ -202,12 +202,9 @@ class _IState(AH._State):
             try:
                 with self.h.open_array(accessmode='w'):
                     pass
-                raise Viol('index.ctx', 'invalid_accessmode_accepted', '')
-            except Viol:
-                raise
+                self.probe('ctx_invalid_mode_accepted')     # that it be refused is not stated; only "nothing stays open"
             except Exception:
-                pass
-            self.probe('ctx_invalid_mode_refused')
+                self.probe('ctx_invalid_mode_refused')
             self.log('ctx', 'badmode')
             return
         if op['do'] == 'enter_rplus_on_r':
@@ -260,6 +257,11 @@ class _IState(AH._State):
             return
         if exc is not None:
             raise Viol('index.get', f'raises:{type(exc).__name__}:{kind}', f'{idx!r}: {str(exc)[:200]}')
+        if isinstance(got, np.generic) and np.ndim(exp) == 0:
+            # a full index: the reference ndarray itself returns a NumPy scalar there ("returns what the reference
+            # ndarray returns"), the pinned tree a 0-d ndarray ("as an in-memory ndarray"): both are accepted
+            self.probe('full_index_returned_numpy_scalar')
+            got = np.asarray(got)
         if not isinstance(got, np.ndarray):
             raise Viol('index.get', f'type:{type(got).__name__}', '')
         ok, why = D.arr_equal(got, exp)
